@@ -15,6 +15,22 @@ from ..ref import gf2poly as G
 LEVEL = "exploration"
 SIZE_MAX = (1 << 64) - 1
 
+# Input classes on which the examined tree aborts (ASan report / live ASSERT) although the headers admit them.
+# Every class is demonstrated by a bounded number of single-call cases in unit_zm_edge / unit_pp_edge / unit_gf2
+# (a crash costs a worker restart; the runner gives up after 25 per job). While a flag is True the *bulk*
+# generators keep away from the class (and say so in the evidence notes); set a flag to False once the
+# corresponding defect is repaired in /repo and the class joins the bulk again.
+AVOID = {
+    "ppDiv:deg(b)=k*B": True,       # ppDiv writes q[n - m + 1] when the top word of b is 1
+    "pp:division-by-1": True,       # ppDiv / ppMod / ppRed with b = 1 (m = 1): out-of-bounds accesses
+    "ppExGCD:even-cofactor": True,  # ASSERT pp_gcd.c (wrong Bezout coefficients with NDEBUG) unless a/x^s, b/x^s both odd
+    "ppExGCD:n<m": True,            # m words copied into [min(n, m)]d
+    "ppMinPoly:a-size": True,       # 2*W_OF_B(l) words of a are read, pp.h declares W_OF_B(2l)
+    "zm:even-modulus-inv": True,    # zmInv / zmDiv -> zzDivMod requires an odd modulus (ASSERT zz_gcd.c)
+    "zm:montR-short-zd": False,     # zero divisors with l < B*n (aborted in zzDoubleMod before zzRedMont was repaired)
+    "gf2:aligned-inv": True,        # gf2Inv / gf2Div read n + 1 words of an n-word element when B | m
+}
+
 # ----------------------------------------------------------------------------------------------
 # qr_o mirror (qr.h, obj.h): size_t and pointers are 8 octets in every configuration
 # ----------------------------------------------------------------------------------------------
@@ -718,9 +734,9 @@ def opclass(x, M):
 
 def zm_ring_and_alg(lib, kind, M, no, lsel, zd=False):
     """creates the ring; returns (ring, alg, label). lsel in [0,1) selects l of zmMontCreate.
-    zd: the operands are zero divisors -> l = B*n (with l < B*n zmMulMont2 doubles the result of zzRedMont,
-    and on the examined tree an unreduced zzRedMont result (reported by the l = B*n cases) turns into an
-    ASSERT abort of zzDoubleMod; short-l rings with zero divisors are driven, in bounded number, by unit_zm_edge)"""
+    zd: force l = B*n (only used while AVOID["zm:montR-short-zd"] is set: with l < B*n zmMulMont2 doubles the
+    result of zzRedMont, and an unreduced zzRedMont result -- reported by the l = B*n cases -- becomes an ASSERT
+    abort of zzDoubleMod)"""
     W = lib.W
     n = (no + W - 1) // W
     l = None
@@ -826,7 +842,7 @@ def unit_zm(ctx):
                     continue
                 done += 1
                 zd = bool((x and y and x * y % M == 0) or (x and x * x % M == 0) or (y and y * y % M == 0))
-                ring, alg, label = zm_ring_and_alg(lib, kind, M, no, lsel, zd)
+                ring, alg, label = zm_ring_and_alg(lib, kind, M, no, lsel, zd and AVOID["zm:montR-short-zd"])
                 if ring is None:
                     viol(ctx, "gfpCreate@gfp:return", "gfpCreate fails for an odd prime", {"p": hx(M)})
                     lib.release()
@@ -851,7 +867,7 @@ def unit_zm(ctx):
                     if M <= v <= top:
                         rej.append(v.to_bytes(no, "little"))
                 # inv/div: zzInvMod/zzDivMod need an odd modulus -> even moduli go to the edge unit
-                out += ring_case(ctx, ring, alg, label, x, y, e, epad, do_inv=bool(M & 1),
+                out += ring_case(ctx, ring, alg, label, x, y, e, epad, do_inv=bool(M & 1) or not AVOID["zm:even-modulus-inv"],
                                  direct=(alg.R != 1 and not alg.plain_io), extra_rej=rej)
                 ctx.digest(out)
                 lib.release()
@@ -863,8 +879,9 @@ def unit_zm(ctx):
 def unit_zm_edge(ctx):
     """Ring cases that abort on the examined tree or have an unspecified value; one library call per case so
     that every abort is attributed to exactly one call. Deliberately bounded (each abort costs a worker restart).
-    NOT generated: inv/div of 0 in rings with ordinary/Crandall/Barrett reduction -- zzDivMod(a = 0) never
-    returns (infinite loop), which the runner could only report as inconclusive."""
+    inv/div of 0 in rings with ordinary/Crandall/Barrett reduction: zzDivMod(a = 0) of the snapshot tree never
+    returned (infinite loop); the jobs of this unit therefore carry "timeout" (the runner reports a hang as
+    inconclusive)."""
     lib = ctx.lib
     W = lib.W
     p1, p2, p3 = 2 ** 61 - 1, 2 ** 89 - 1, 2 ** 127 - 1
@@ -887,7 +904,10 @@ def unit_zm_edge(ctx):
               ("noninv", "mont", 15, "inv", 5, 1, None, False), ("noninv", "mont", p3 * p2, "div", p3, 77, None, False),
               ("noninv", "montR", p3 * p1, "inv", 3 * p1, 1, None, False),
               ("noninv", "plain", 15, "inv", 5, 1, None, False), ("noninv", "barr", p3 * p2, "div", p3, 3, None, False),
-              ("noninv", "crand", 2 ** 128 - 3, "inv", 5 * 83, 1, None, False)]
+              ("noninv", "crand", 2 ** 128 - 3, "inv", 5 * 83, 1, None, False),
+              # element 0 (zzDivMod(a = 0) of the snapshot never returned; the job carries a watchdog for this)
+              ("noninv", "plain", 2 ** 190 - 11, "inv", 0, 1, None, False), ("noninv", "barr", p3 * p2, "div", 0, 3, None, False),
+              ("noninv", "crand", 2 ** 128 - 3, "div", 0, 9, None, False), ("noninv", "plain", 15, "div", 0, 7, None, False)]
     # (F) zero divisors in 'pure' Montgomery rings with l < B*n
     for M, x, y, l in ((15, 3, 10, 40), (15, 5, 6, 4), (p3 * p2, 5 * p3, 9 * p2, 217), (p3 * p3, 3 * p3, 7 * p3, 254)):
         cases.append(("montR-short-zd", "montR", M, "mul", x, y, l, False))
@@ -1108,9 +1128,9 @@ def unit_pp_arith(ctx):
                 a = (G.mul(q0, b) ^ r1) & ((1 << (n * B)) - 1)
             elif sel < 0.32:
                 a = b & ((1 << (n * B)) - 1)
-            if b == 1 and m == 1:
+            if b == 1 and m == 1 and AVOID["pp:division-by-1"]:
                 b = 3
-            if fn == "ppDiv" and b >> ((m - 1) * B) == 1:
+            if fn == "ppDiv" and b >> ((m - 1) * B) == 1 and AVOID["ppDiv:deg(b)=k*B"] and b != 1:
                 # deg(b) multiple of B: ppDiv writes q[n - m + 1] (one word past the quotient) on the examined
                 # tree -- demonstrated, in bounded number, by unit_pp_edge; the bulk keeps to the other divisors
                 b |= 2 << ((m - 1) * B)
@@ -1192,7 +1212,7 @@ def unit_pp_small(ctx):
             if prod != G.mul(a, b):
                 pbad(ctx, "ppMul", "value", {"a": a, "b": b, "got": prod})
             qe, re_ = G.divmod_(a, b)
-            if b != 1:
+            if b != 1 or not AVOID["pp:division-by-1"]:
                 ms(q1, fill, W); ms(r1, fill, W)
                 lib.ppDiv(q1, r1, pa, 1, pb, 1, st["ppDiv"])
                 gq, gr = rdw(q1, 1), rdw(r1, 1)
@@ -1214,7 +1234,7 @@ def unit_pp_small(ctx):
                 if gd != g:
                     pbad(ctx, "ppGCD", "value", {"a": a, "b": b, "got": gd, "expected": g})
                 acc.append(gd)
-                if exgcd_domain(a, b):
+                if exgcd_domain(a, b) or not AVOID["ppExGCD:even-cofactor"]:
                     ms(d1, fill, W); ms(da1, fill, W); ms(db1, fill, W)
                     lib.ppExGCD(d1, da1, db1, pa, 1, pb, 1, st["ppExGCD"])
                     gd, gda, gdb = rdw(d1, 1), rdw(da1, 1), rdw(db1, 1)
@@ -1310,12 +1330,12 @@ def unit_pp_mod(ctx):
             a, b = a or 1, b or 1
             if sel2 < 0.1:
                 b = a & ((1 << (m * B)) - 1) or 1
-            if fn == "ppExGCD" and not exgcd_domain(a, b):
+            if fn == "ppExGCD" and not exgcd_domain(a, b) and AVOID["ppExGCD:even-cofactor"]:
                 # make both cofactors odd after the common power of x is removed (see exgcd_domain)
                 sa, sb = (a & -a).bit_length() - 1, (b & -b).bit_length() - 1
                 s0 = min(sa, sb)
                 a, b = (a >> sa) << s0, (b >> sb) << s0
-            if fn == "ppExGCD" and n < m:
+            if fn == "ppExGCD" and n < m and AVOID["ppExGCD:n<m"]:
                 # n < m: ppExGCD copies m words into [min(n, m)]d on the examined tree (heap overflow, see
                 # unit_pp_edge); the bulk keeps to n >= m
                 a, b, n, m = b, a, m, n
@@ -1416,7 +1436,7 @@ def unit_pp_mod(ctx):
                     cat = "gcd!=1" if inv is None else "not-reduced" if got.bit_length() > dm and G.mod(got, md) == exp else "value"
                     pbad(ctx, fn, cat, {"a": u, "divident": v, "mod": md, "n": n, "got": got, "expected": exp})
             else:
-                if md == 1:
+                if md == 1 and AVOID["pp:division-by-1"]:
                     md = 3              # mod = 1: see unit_pp_edge
                 tcls = "top=1" if md >> ((n - 1) * B) == 1 else tcls
                 u = big & ((1 << (2 * n * B)) - 1)
@@ -1656,7 +1676,7 @@ def unit_pp_irred(ctx):
             if bit:
                 a |= 1 << (N - 1 - i)
         na_hdr, na_lib = (2 * l + B - 1) // B, 2 * ((l + B - 1) // B)
-        na = max(na_hdr, na_lib)
+        na = max(na_hdr, na_lib) if AVOID["ppMinPoly:a-size"] else na_hdr
         if garbage and na * B > N:
             a |= (garbage << N) & ((1 << (na * B)) - 1)
         cls = "ppMinPoly:%s%s" % (mode, ":a-padded" if na > na_hdr else "")
@@ -1968,7 +1988,7 @@ def unit_gf2(ctx):
                 continue
             bump(hist, "m=%d" % m)
             fld = Ring.gf2(lib, p4)
-            out = ring_case(ctx, fld, alg, "gf2", x, y, e, epad, do_inv=not aligned, direct=False, extra_rej=rej)
+            out = ring_case(ctx, fld, alg, "gf2", x, y, e, epad, do_inv=not (aligned and AVOID["gf2:aligned-inv"]), direct=False, extra_rej=rej)
             # trace
             tdeep = lib.gf2Tr_deep(n, max(fld.deep, fld.need))
             tr = lib.gf2Tr(lib.mkw(x, n), fld.p, lib.alloc(tdeep))
@@ -2014,14 +2034,14 @@ def jobs(tier, scale=1.0):
     def add(unit, n, **params):
         for k in range(n):
             J.append({"unit": "c05_pp:" + unit, "params": dict(params, chunk=k, nchunks=n)})
-    add("unit_zm", 6 if q else 16, cases=sc(2500 if q else 25000), tuples=3 if q else 5)
+    add("unit_zm", 6 if q else 16, cases=sc(4000 if q else 60000), tuples=3 if q else 5)
     add("unit_pp_small", 4 if q else 16, maxdeg=(7 if q else 10) if scale >= 1 else 6)
-    add("unit_pp_arith", 2 if q else 6, cases=sc(12000 if q else 150000))
-    add("unit_pp_mod", 2 if q else 8, cases=sc(6000 if q else 60000))
-    add("unit_pp_irred", 4 if q else 12, cases=sc(200 if q else 1500))
-    add("unit_gf2", 4 if q else 12, cases=sc(25 if q else 250))
+    add("unit_pp_arith", 2 if q else 6, cases=sc(20000 if q else 150000))
+    add("unit_pp_mod", 2 if q else 8, cases=sc(8000 if q else 60000))
+    add("unit_pp_irred", 4 if q else 12, cases=sc(250 if q else 1500))
+    add("unit_gf2", 4 if q else 12, cases=sc(30 if q else 250))
     for part in range(2):
-        J.append({"unit": "c05_pp:unit_zm_edge", "params": {"part": part}})
+        J.append({"unit": "c05_pp:unit_zm_edge", "params": {"part": part}, "timeout": 600})
     for part in range(3):
         J.append({"unit": "c05_pp:unit_pp_edge", "params": {"part": part}})
     return J
